@@ -241,3 +241,9 @@ def run(rep: Report, prog: Program, tier: str) -> None:
     else:
         rep.fail("R5.4", "arity-table", f"_normalize_strategy arity table is {arities}; expected 1 -> identity, 3 -> wrapper, else TypeError", where=nf.where(), function=nf.qual)
     rep.floor("R5.4", 2)
+
+    rep.rule("R5.5", "downstream: the sleep handler, before_sleep and the sleeper receive decision.sleep_s unmodified; SCHEDULED reports it (= C16 R16.3)")
+    from .c16 import sleep_action_tables
+
+    sleep_action_tables(rep, "R5.5", prog)
+    rep.floor("R5.5", 12)
